@@ -939,6 +939,12 @@ func (rule *RuleExpression) checkMatrix(m *Matrix) *ObjectType {
 				continue
 			}
 			if merged, ok := o.Merge(ty).(*ObjectType); ok {
+				if merged == ty {
+					// Merge may return the given type itself. Copy it since it is modified on
+					// checking the following elements. The type may be shared with a context
+					// such as `github.event`
+					merged = merged.DeepCopy().(*ObjectType)
+				}
 				o = merged
 			} else {
 				o.Loose()
